@@ -122,13 +122,13 @@ def start_texts(ctx, prop, res):
         ctxs = rewrite.contexts(pick, rng, {"C01": 500, "C04": 400, "C06": 300, "C07": 1200}[prop] if q else 12000)
         gens = rewrite.generator_outputs(ctx.seed, 120 if q else 3000)
         forms = rewrite.FORMS + rewrite.contexts(rewrite.FORMS, rng, 40 if q else 400)
-        texts = sent_texts + extra + pick + ctxs + rewrite.test_json_inputs() + gens + forms
+        texts = sent_texts + extra + pick + ctxs + rewrite.test_json_inputs() + gens + forms + rewrite.SHARED_ID_FORMS
         parts.append("%d/%d TLC-emitted sentences (<= 5 tokens) + %d operand variants; %d term-level trees (16 term forms, + - * /, every grouping, <= 3 leaves); "
                      "%d embeddings under + - * / ^ neg sgn = ; the inputs/outputs of every rules/*.test.json example; %d generator outputs; the documented alternate tree forms, their additive analogues and special value classes (rewrite.FORMS / EQ_FORMS)"
                      % (len(sent_texts), len(sents), len(extra), len(pick), len(ctxs), len(gens)))
         if prop in ("C04", "C06", "C07"):
             eqs = rewrite.equations(True)
-            texts += rng.sample(eqs, min(len(eqs), 150 if q else len(eqs))) + rewrite.EQ_FORMS
+            texts += rng.sample(eqs, min(len(eqs), 150 if q else len(eqs))) + rewrite.EQ_FORMS + rewrite.SHARED_ID_EQ_FORMS
     if prop == "C02":
         eqs = rewrite.equations(q)
         more = []
@@ -136,7 +136,7 @@ def start_texts(ctx, prop, res):
         for t in rng.sample(tl2, min(len(tl2), 200 if q else 1500)):
             more.append("%s = %s" % (t, rng.choice(["3", "x", "2x + 1", "y"])))
             more.append("%s = %s" % (rng.choice(["0", "x", "y + 1"]), t))
-        texts = eqs + more + [t for t in rewrite.test_json_inputs() if "=" in t] + rewrite.EQ_FORMS
+        texts = eqs + more + [t for t in rewrite.test_json_inputs() if "=" in t] + rewrite.EQ_FORMS + rewrite.SHARED_ID_EQ_FORMS + rewrite.NUMPY_ZERO_EQ_FORMS
         parts.append("%d equations L = R over %d side forms (addend at top level, inside a product, quotient, power base/exponent, negation, "
                      "subtrahend, function argument; coefficients 0 and 1; one and two variables) + %d term-level sides + test.json equations"
                      % (len(eqs), len(rewrite.EQUATION_SIDES), len(more)))
@@ -172,7 +172,16 @@ def run_family(ctx, cases, prop):
         texts = [c["second"][0] if c.get("second") else c["text"] for c in cases]
         res.rule = "replay"
     from multiprocessing import Pool
-    jobs = [(t, prop == "C06", prop == "C02") for t in texts]
+    jobs = [(t, prop == "C06", (8 if t in set(rewrite.NUMPY_ZERO_EQ_FORMS) else True) if prop == "C02" else False) for t in texts]
+    if prop == "C06" and cases is None:
+        # two-step derivations asked about again: every rule object is asked about (and applied to) trees that only a rewrite can produce
+        special = rewrite.UNDEF_FORMS + rewrite.FORMS + rewrite.EQ_FORMS
+        rng2 = random.Random(ctx.seed + 6)
+        jobs = [(t, True, False) for t in texts if t not in set(special)] + [(t, True, 8) for t in special] + \
+               [(t, True, True) for t in rng2.sample(texts, min(len(texts), 150 if ctx.quick else 3000))]
+        res.rule += "; a second round of asking + applying (same rule objects) on up to 8 first-step results of every special form (incl. %d forms whose fold leaves a nan / inf / zero coefficient) and on 3 results of a sample" % len(rewrite.UNDEF_FORMS)
+    elif prop == "C06":
+        jobs = [(t, True, 8) for t in texts]
     with Pool(16) as pool:
         events = [e for l in pool.map(rewrite.events_for_text, jobs, chunksize=20) for e in l]
     if prop == "C04":
